@@ -561,7 +561,7 @@ fn work(args: &Args, entries: &[Entry], w: usize, nw: usize) -> Value {
             continue;
         }
         let _ = std::fs::remove_file(&progress);
-        let res = fork_collect(if thorough { 600_000 } else { 240_000 }, |wfd| {
+        let res = fork_collect(if thorough { 1_800_000 } else { 900_000 }, |wfd| {
             let v = run_item(&r, entries, item, thorough, args.seed, idx as u64, &progress);
             let s = v.to_string();
             let b = s.as_bytes();
@@ -619,7 +619,7 @@ fn work(args: &Args, entries: &[Entry], w: usize, nw: usize) -> Value {
         if idx % nw != w {
             continue;
         }
-        let res = fork_collect(240_000, |wfd| {
+        let res = fork_collect(900_000, |wfd| {
             let v = run_seq_item(&r, entries, pi, thorough, args.seed, idx as u64);
             let s = v.to_string();
             let b = s.as_bytes();
@@ -727,7 +727,7 @@ fn run_seq_item(r: &Runner, entries: &[Entry], pi: usize, thorough: bool, seed: 
 /// Runs one case in its own forked child (used to survive aborts).
 fn isolated(r: &Runner, case: &Case) -> Option<RunOut> {
     // only the lexer-call count and leaves of the fault-free run are needed
-    let res = fork_collect(30_000, |wfd| {
+    let res = fork_collect(120_000, |wfd| {
         let out = r.run(case, false);
         let v = match out {
             Some(o) => json!({"calls": o.lexer_calls, "leaves": match &o.out { Out::Ok { leaves, .. } => leaves.iter().map(|l| json!([l.kind, l.start, l.end])).collect::<Vec<_>>(), _ => vec![] }, "ok": matches!(o.out, Out::Ok { .. })}),
@@ -755,7 +755,7 @@ fn isolated(r: &Runner, case: &Case) -> Option<RunOut> {
 
 pub fn still_fails(r: &Runner, case: &Case, key: &str) -> bool {
     // in a forked child: the case may abort the process
-    let res = fork_collect(60_000, |wfd| {
+    let res = fork_collect(120_000, |wfd| {
         let verdict = match r.run(case, false) {
             Some(o) => judge(r, case, &o).map(|x| x.1).unwrap_or_default(),
             None => String::new(),
